@@ -45,7 +45,7 @@ Fixpoint star_m (body : str -> nat -> caps -> kont -> option caps)
   | O => k s pos c
   | S f =>
       match body s pos c (fun s' pos' c' =>
-                            if Nat.eqb pos' pos then None else star_m body f s' pos' c' k) with
+                            if Nat.ltb (length s') (length s) then star_m body f s' pos' c' k else None) with
       | Some r => Some r
       | None => k s pos c
       end
